@@ -1,5 +1,6 @@
 pub mod c10;
 pub mod c04real;
+pub mod c11real;
 pub mod conform;
 pub mod realmix;
 pub mod c12;
@@ -195,6 +196,7 @@ pub fn run(name: &str, args: &Args) -> Option<Report> {
             guarded(&mut rep, name, "C14", seed, start, |rep| c14::run(seed, start, iters, rep));
         }
         "conform" => conform::run(&mut rep, args.seed),
+        "c11real" => c11real::run(args.seed, args.start, args.iters, &mut rep),
         "c04real" => c04real::run(args.seed, args.start, args.iters, &mut rep),
         "realmix" => realmix::run(args.seed, args.start, args.iters, &mut rep),
         "c15" => c15::run(args.seed, args.start, args.iters, &mut rep),
